@@ -35,6 +35,9 @@ type c18ExprCase struct {
 	Expr string `json:"expr"`
 	Typ  string `json:"type"`
 	Cfg  int    `json:"cfg"`
+	// InSeq: the case was run as part of the sequence of configurations 0,1,2,0 in one process
+	// (replay repeats the whole sequence)
+	InSeq bool `json:"in_sequence,omitempty"`
 }
 
 var c18Cfgs = []map[string]string{
@@ -94,26 +97,41 @@ func c18Exprs(thorough bool) (ints, bools, strs []string) {
 func c18Expr(c *core.Ctx) {
 	gen := func(yield func(c18ExprCase) bool) {
 		ints, bools, strs := c18Exprs(c.Thorough())
-		for ci := range c18Cfgs {
-			for _, e := range ints {
-				if !yield(c18ExprCase{e, "int", ci}) {
-					return
-				}
+		// Cfg -1: the three configurations one after the other in the same process, then the first
+		// again: the result must follow the configuration of the current container
+		for _, e := range ints {
+			if !yield(c18ExprCase{Expr: e, Typ: "int", Cfg: -1}) {
+				return
 			}
-			for _, e := range bools {
-				if !yield(c18ExprCase{e, "bool", ci}) {
-					return
-				}
+		}
+		for _, e := range bools {
+			if !yield(c18ExprCase{Expr: e, Typ: "bool", Cfg: -1}) {
+				return
 			}
-			for _, e := range strs {
-				if !yield(c18ExprCase{e, "string", ci}) {
-					return
-				}
+		}
+		for _, e := range strs {
+			if !yield(c18ExprCase{Expr: e, Typ: "string", Cfg: -1}) {
+				return
 			}
 		}
 	}
 	types := map[string]reflect.Type{"int": reflect.TypeOf(0), "bool": reflect.TypeOf(false), "string": reflect.TypeOf("")}
-	Cases(c, gen, func(c *core.Ctx, cs c18ExprCase) {
+	Cases(c, gen, func(c *core.Ctx, cs0 c18ExprCase) {
+		cfgs := []int{cs0.Cfg}
+		if cs0.Cfg < 0 || cs0.InSeq {
+			cfgs = []int{0, 1, 2, 0}
+		}
+		for _, ci := range cfgs {
+			cs := cs0
+			cs.Cfg = ci
+			cs.InSeq = len(cfgs) > 1
+			c18ExprOne(c, cs, types)
+		}
+	})
+}
+
+func c18ExprOne(c *core.Ctx, cs c18ExprCase, types map[string]reflect.Type) {
+	{
 		cfg := c18Cfgs[cs.Cfg]
 		doc := fmt.Sprintf("n1: %s\nn2: %s\ns: %s\n", cfg["n1"], cfg["n2"], cfg["s"])
 		st := reflect.StructOf([]reflect.StructField{{Name: "X", Type: types[cs.Typ], Tag: reflect.StructTag(fmt.Sprintf(`value:"#{%s}"`, cs.Expr))}})
@@ -164,7 +182,7 @@ func c18Expr(c *core.Ctx) {
 				c.Sample(map[string]any{"case": cs, "substituted": c18Subst(cs.Expr, cfg), "bound": got})
 			}
 		}
-	})
+	}
 }
 
 // ---- validation
